@@ -197,11 +197,11 @@ def build_atoms(a: dict):
     return atoms, np.asarray(labels)
 
 
-def molecule_template(size: int):
+def molecule_template(size: int, symbol: str | None = None):
     from ase import Atoms
 
     if size == 1:
-        return Atoms("Ar", positions=[[0.0, 0.0, 0.0]])
+        return Atoms(symbol or "Ar", positions=[[0.0, 0.0, 0.0]])
     if size == 2:
         return Atoms("N2", positions=[[0.0, 0.0, -0.55], [0.0, 0.0, 0.55]])
     return Atoms("OH2", positions=[[0.0, 0.0, 0.12], [0.0, 0.76, -0.47], [0.0, -0.76, -0.47]])
@@ -374,7 +374,7 @@ def build(spec: dict, **driver_kwargs):
         S = spec.get("S")
         mc = Isotension(atoms, temperature=T, pressure=spec.get("P", 0.001), external_stress=None if S is None else np.array(S), max_cycles=cycles, **kw)
     elif d == "GrandCanonical":
-        species = molecule_template(spec.get("species", 1))
+        species = molecule_template(spec.get("species", 1), spec.get("species_symbol"))
         mc = GrandCanonical(atoms, exchange_atoms=species, temperature=T, chemical_potential=spec.get("mu", -0.1), number_of_exchange_particles=spec.get("nexch", int(len(np.unique(labels[labels >= 0])))), max_cycles=cycles, **kw)
     elif d == "ForceBias":
         mc = ForceBias(atoms, delta=spec.get("delta", 0.1), temperature=T, **kw)
